@@ -32,10 +32,10 @@ class Inst:
         return k
 
 
-PARAM = {"BA": "const BARR* %s", "LL8": "long long %s", "V": "VP p%s", "M": "MP p%s", "S": "S %s", "LL": "long long %s", "B": "bool %s",
+PARAM = {"VA": "VP p%s", "BA": "const BARR* %s", "LL8": "long long %s", "V": "VP p%s", "M": "MP p%s", "S": "S %s", "LL": "long long %s", "B": "bool %s",
          "U32": "std::uint32_t %s", "CP": "const S* %s", "P": "S* %s", "VI": "IVP p%s",
          "V2": "VP2 p%s", "M2": "MP2 p%s", "I32": "std::int32_t %s", "I64": "std::int64_t %s"}
-LOCAL = {"V": "V %s{p%s};", "M": "M %s{p%s};", "VI": "IV %s{p%s};", "V2": "V2 %s{p%s};",
+LOCAL = {"VA": "V %s{p%s};", "V": "V %s{p%s};", "M": "M %s{p%s};", "VI": "IV %s{p%s};", "V2": "V2 %s{p%s};",
          "M2": "M2 %s{p%s};"}
 RET = {"V": "VP", "M": "MP", "S": "S", "B": "bool", "U32": "std::uint32_t", "void": "void",
        "V2": "VP2", "M2": "MP2", "I32": "std::int32_t", "I64": "std::int64_t", "US": "US"}
@@ -236,12 +236,6 @@ def fam_mask(vt, cfg):
 # ---------------------------------------------------------------------------
 # C04 bitwise, shifts, rotations
 
-def amt_arg(c, name):
-    """scalar shift amount argument (long long) under the precondition
-    0 <= s <= 255 (a superset of the documented domain [0, bits])"""
-    return T.arg(c.argidx[name], 0, 8)
-
-
 def sh(kind, x, amt):
     return T.shift(kind, x, amt, True)
 
@@ -266,10 +260,11 @@ def fam_bitwise(vt, cfg):
     I.append(Inst("shl_s_assign", VS, "V", "a", lambda c: c.pack([sh("shl", x, c.args["s"]) for x in c.lanes("a")]), pre="a <<= s;"))
     I.append(Inst("shr_s", VS, "V", "a >> s", lambda c: c.pack([sh(rk, x, c.args["s"]) for x in c.lanes("a")])))
     I.append(Inst("shr_s_assign", VS, "V", "a", lambda c: c.pack([sh(rk, x, c.args["s"]) for x in c.lanes("a")]), pre="a >>= s;"))
-    I.append(Inst("shl_v", VV, "V", "a << b", lanewise2(lambda c, x, y: sh("shl", x, y)), note="amounts in [0,bits]"))
-    I.append(Inst("shl_v_assign", VV, "V", "a", lanewise2(lambda c, x, y: sh("shl", x, y)), pre="a <<= b;"))
-    I.append(Inst("shr_v", VV, "V", "a >> b", lanewise2(lambda c, x, y: sh(rk, x, y))))
-    I.append(Inst("shr_v_assign", VV, "V", "a", lanewise2(lambda c, x, y: sh(rk, x, y)), pre="a >>= b;"))
+    VA = [("V", "a"), ("VA", "b")]
+    I.append(Inst("shl_v", VA, "V", "a << b", lanewise2(lambda c, x, y: sh("shl", x, y)), note="amounts in [0,bits]"))
+    I.append(Inst("shl_v_assign", VA, "V", "a", lanewise2(lambda c, x, y: sh("shl", x, y)), pre="a <<= b;"))
+    I.append(Inst("shr_v", VA, "V", "a >> b", lanewise2(lambda c, x, y: sh(rk, x, y))))
+    I.append(Inst("shr_v_assign", VA, "V", "a", lanewise2(lambda c, x, y: sh(rk, x, y)), pre="a >>= b;"))
     for S in range(0, B + 1):
         I.append(Inst("bit_shift_left", [("V", "a")], "V", "avel::bit_shift_left<%d>(a)" % S,
                       lanewise1(lambda c, x, S=S: T.shl_c(x, S)), param=S))
